@@ -177,6 +177,19 @@ func C18(seed int64, n int) (*cq.Set, *cq.Interner) {
 		Rule: "histories of 1-60 recordings (evaluation / exemption / error with random attributes; version labels from latest, v1.0 .. v1.(2^40), far beyond the server's v1.30) with occasional resets through a real PrometheusRecorder registered in a fresh registry, then gathered; cached (pre-populated) and uncached label combinations both occur; plus a concurrent run of 16 goroutines x 4000 recordings with exact totals; distinct by history; non-trivial = at least two recordings"}
 	for i := 0; i < n; i++ {
 		rec, reg := newRecorder()
+		serverMajor, serverMin := 1, serverMinor
+		if i%8 == 7 {
+			// the recorder exactly as cmd/webhook/server builds it: bounded by api.GetAPIVersion()
+			sv := api.GetAPIVersion()
+			if sv.Latest() {
+				set.GoFails = append(set.GoFails, cq.GoFail{What: "api.GetAPIVersion() returned 'latest': the webhook's recorder would emit every pinned policy version verbatim (unbounded policy_version series)", Replay: map[string]interface{}{"server_version": sv.String()}})
+				continue
+			}
+			serverMajor, serverMin = sv.Major(), sv.Minor()
+			rec = metrics.NewPrometheusRecorder(sv)
+			reg = compbasemetrics.NewKubeRegistry()
+			rec.MustRegister(reg.MustRegister)
+		}
 		k := 1 + r.Intn(60)
 		var calls []recCall
 		var terms []string
@@ -198,7 +211,7 @@ func C18(seed int64, n int) (*cq.Set, *cq.Interner) {
 		for _, g := range gs {
 			gt = append(gt, cq.Pair(cq.Pair(in.S(g.Name), in.StrList(g.Labels)), cq.N(g.Value)))
 		}
-		term := cq.App("C18Case", cq.N(serverMinor), cq.List(terms), cq.List(gt))
+		term := cq.App("C18Case", cq.N(uint64(serverMajor)), cq.N(uint64(serverMin)), cq.List(terms), cq.List(gt))
 		set.Cases = append(set.Cases, cq.Case{Term: term, Key: fmt.Sprintf("%+v", calls), Nontrivial: k >= 2, Tags: []string{fmt.Sprintf("len:%d", k/10*10)},
 			Sample: map[string]interface{}{"calls": calls, "gathered": gs}, Uses: in.TakeUses()})
 	}
